@@ -47,7 +47,6 @@ static struct slot slots[MAXSLOT];
 static int nslots;
 static int emit_counter;
 static int term_lines, term_cols;
-static int cur_ev_is_fire_info;
 
 static void out_func(TickitTerm *t, const char *bytes, size_t len, void *user) { (void)t; (void)bytes; (void)len; (void)user; }
 
